@@ -245,6 +245,16 @@ def classify_result(fn, call, _depth=0):
             verdicts.append(("matched-used", "") if used else ("matched-dropped", "Err payload never read"))
         elif kind == "read":
             st = x
+            # reads through a downcast are payload reads, not uses of the Result itself
+            projs = []
+            for op in _rv_operands(st["rv"]):
+                pp = op_place(op)
+                if pp and pp["l"] == l:
+                    projs.append(pp["p"])
+            if projs and all(pr for pr in projs):
+                if any(isinstance(q, dict) and q.get("dc") == "Err" for pr in projs for q in pr):
+                    verdicts.append(("matched-used", "Err payload read"))
+                continue
             if st["place"]["l"] == 0 and not st["place"]["p"]:
                 verdicts.append(("returned", "moved to _0"))
             else:
